@@ -99,7 +99,13 @@ def render_value(ip, kind, ty, p, opts=None):
         x = deref(ip, v)
         if kind in ('display', 'debug'):
             return render_int(ip, x, it[1])
-        raise Inconclusive("int formatting kind " + kind)
+        if kind in ('upper_hex', 'lower_hex') and isinstance(x, BV) and x.concrete:
+            # {:X} / {:#010X} of a concrete integer (identifiers in admin output): flags are taken to be `#0` when any are set
+            digs = ('%X' if kind == 'upper_hex' else '%x') % x.v
+            if opts and opts.get('flags') and opts.get('width'):
+                digs = '0x' + digs.zfill(max(0, opts['width'] - 2))
+            return [BV(8, c_) for c_ in digs.encode()]
+        raise Inconclusive("int formatting kind %s of %r" % (kind, x))
     if t == 'bool':
         x = deref(ip, v)
         if ip.branch(x, 'fmt_bool'):
